@@ -41,6 +41,7 @@ THEOREMS = [
     "JanetModel.Props.C18.gen_keywords",
     "JanetModel.Props.C18.gen_threadStart",
     "JanetModel.Props.C18.gen_mayGrow",
+    "JanetModel.Props.C18.gen_sandboxShape",
     "JanetModel.Props.C18.benign_calls_keep_flags",
     "JanetModel.Props.C18.sandbox_enforced",
     "JanetModel.Props.C18.stays_enforced",
